@@ -15,6 +15,7 @@ import (
 type resA struct{ V int }
 type resB struct{ V [2]int64 }
 type resC struct{}
+type resLate struct{ V int8 }
 
 // resource scenario: three resource types, two candidate pointers each; operations through three access paths,
 // interleaved with an entity operation, an open query and Reset.
@@ -31,10 +32,11 @@ const (
 	rsEntity               // create or remove an entity
 	rsQuery                // open / close a query
 	rsReset
+	rsLate // first use of a resource type (registration + Add/Get/Remove), possibly while a query is open
 )
 
 func (c *resCfg) OpKind(op wx.Op) string {
-	return [...]string{"", "Add", "Remove", "EntityOp", "Query open/close", "Reset"}[op.K]
+	return [...]string{"", "Add", "Remove", "EntityOp", "Query open/close", "Reset", "first use of a new resource type"}[op.K]
 }
 
 func (c *resCfg) OpString(op wx.Op) string {
@@ -56,6 +58,7 @@ type resRun struct {
 	present [3]int // 0 absent, 1/2 = pointer index+1
 	ent     ecs.Entity
 	entOps  int
+	late    bool
 	q       *ecs.Query
 	outcome string
 	dead    bool
@@ -86,6 +89,9 @@ func (r *resRun) Key(buf []byte) []byte {
 		buf = append(buf, 'E')
 	}
 	buf = append(buf, byte(r.entOps))
+	if r.late {
+		buf = append(buf, 'L')
+	}
 	if r.q != nil {
 		buf = append(buf, 'Q')
 	}
@@ -110,6 +116,9 @@ func (r *resRun) Enabled() []wx.Op {
 		ops = append(ops, wx.Op{K: rsReset})
 	}
 	ops = append(ops, wx.Op{K: rsQuery})
+	if !r.late {
+		ops = append(ops, wx.Op{K: rsLate})
+	}
 	return ops
 }
 
@@ -216,6 +225,33 @@ func (r *resRun) Apply(op wx.Op) wx.Result {
 		} else {
 			r.q.Close()
 			r.q = nil
+		}
+	case rsLate:
+		r.late = true
+		before := len(ecs.ResourceIDs(w))
+		var got interface{}
+		pv := catchP(func() {
+			id := ecs.ResourceID[resLate](w)
+			v := &resLate{V: 3}
+			w.Resources().Add(id, v)
+			got = w.Resources().Get(id)
+			if got != v || !w.Resources().Has(id) {
+				panic("Get/Has after Add of the new resource type wrong")
+			}
+			w.Resources().Remove(id)
+			if w.Resources().Has(id) || ecs.GetResource[resLate](w) != nil {
+				panic("resource still present after Remove")
+			}
+		})
+		if pv != nil {
+			locked := ""
+			if r.q != nil {
+				locked = " while a query is open"
+			}
+			return r.fail("res:first-use", fmt.Sprintf("first use of a new resource type%s failed: %v", locked, pv))
+		}
+		if n := len(ecs.ResourceIDs(w)); n != before+1 {
+			return r.fail("res:first-use-ids", fmt.Sprintf("ResourceIDs has %d entries after registering one more type (was %d)", n, before))
 		}
 	case rsReset:
 		w.Reset()
